@@ -76,8 +76,8 @@ func handleALIGNB(params x86genParams, ctx *CodeGenContext) ([]byte, error) {
 		return nil, fmt.Errorf("handleALIGNB: invalid alignment boundary %d, must be a positive power of 2", alignBoundary)
 	}
 
-	// x86genParams から現在のバイトコード長を取得
-	currentLength := params.MachineCodeLen
+	// アライメントは pass1 と同じく「アドレス」(ORG の起点 + 出力済みバイト数) に対して行う
+	currentLength := int(ctx.DollarPosition) + params.MachineCodeLen
 	paddingSize := (alignBoundary - (currentLength % alignBoundary)) % alignBoundary
 
 	if paddingSize > 0 {
